@@ -11,11 +11,16 @@ package main
 //  Y3  TriangleISet.Canonical canonicalises every element and then sorts the
 //      same set; Equals tests the lengths, canonicalises both operands and
 //      compares all three indices at every position
+//  Y4-Y6 circumcentre closed form, in-circumcircle test structure, super triangle extents
+//  Y7  Delaunay2d: the completion flags follow their triangles (parallel slices in step)
+//  Y8  Delaunay2dSlow: the plane-side test compares with zero
 //
 // Not decided: the triangulation itself (in-circle arithmetic, super triangle).
 
 import (
 	"fmt"
+	"go/token"
+	"go/types"
 	"math/big"
 	"sort"
 	"strings"
@@ -327,6 +332,8 @@ func init() {
 		}
 		checkInCircumcircle(ctx, r)
 		checkSuperTriangle(ctx, r)
+		checkParallelSlices(ctx, r)
+		checkHullTest(ctx, r)
 		r.floor("Y4", 3)
 		r.floor("Y5", 2)
 	}}
@@ -580,4 +587,204 @@ func checkSuperTriangle(ctx *Ctx, r *Report) {
 		}
 	}
 	r.check("Y6", "superTriangle|size-follows-both-extents", fn.Pos(), ok, "the width of the enclosing triangle grows with the extent of the points along x and its height with their extent along y;"+detail)
+}
+
+// ---------------------------------------------------------------- Y7: triangle list and its flags
+
+// sameSSA: the two operands denote the same value (the same SSA value, equal constants, or the
+// same arithmetic on such operands - go/ssa does not share common subexpressions).
+func sameSSA(a, b ssa.Value) bool {
+	if a == b {
+		return true
+	}
+	if a == nil || b == nil {
+		return false
+	}
+	if ca, ok := a.(*ssa.Const); ok {
+		cb, ok := b.(*ssa.Const)
+		return ok && ca.Value != nil && cb.Value != nil && ca.Value.ExactString() == cb.Value.ExactString()
+	}
+	if ba, ok := a.(*ssa.BinOp); ok {
+		bb, ok := b.(*ssa.BinOp)
+		return ok && ba.Op == bb.Op && sameSSA(ba.X, bb.X) && sameSSA(ba.Y, bb.Y)
+	}
+	return false
+}
+
+// checkParallelSlices: Delaunay2d keeps a flag per triangle in a second slice. As long as a flag
+// can still be read, every operation that changes the length of the triangle list or moves a
+// triangle (re-slice, append, copy-in of the tail) has its twin on the flag slice in the same
+// basic block with the same operands; otherwise flag j no longer belongs to triangle j.
+func checkParallelSlices(ctx *Ctx, r *Report) {
+	fn := ctx.ssaFunc("render", "Delaunay2d")
+	if fn == nil {
+		r.undecided("Y7", "Delaunay2d", 0, "not found")
+		return
+	}
+	kindOf := func(t types.Type) string {
+		sl, ok := t.Underlying().(*types.Slice)
+		if !ok {
+			return ""
+		}
+		if b, ok := sl.Elem().Underlying().(*types.Basic); ok && b.Kind() == types.Bool {
+			return "flags"
+		}
+		if strings.HasSuffix(sl.Elem().String(), "render.TriangleI") {
+			return "tris"
+		}
+		return ""
+	}
+	type op struct {
+		kind string // reslice / append / move
+		a, b ssa.Value
+		ins  ssa.Instruction
+	}
+	ops := map[*ssa.BasicBlock]map[string][]op{}
+	flagReads := map[*ssa.BasicBlock]bool{}
+	add := func(b *ssa.BasicBlock, which string, o op) {
+		if ops[b] == nil {
+			ops[b] = map[string][]op{}
+		}
+		ops[b][which] = append(ops[b][which], o)
+	}
+	nFlags := 0
+	allInstrs(fn, func(b *ssa.BasicBlock, ins ssa.Instruction) {
+		switch x := ins.(type) {
+		case *ssa.Slice:
+			if k := kindOf(x.X.Type()); k != "" && x.Low == nil {
+				add(b, k, op{kind: "reslice", a: x.High, ins: ins})
+			}
+		case *ssa.Call:
+			if bi, ok := x.Call.Value.(*ssa.Builtin); ok && bi.Name() == "append" && len(x.Call.Args) > 0 {
+				if k := kindOf(x.Call.Args[0].Type()); k != "" {
+					add(b, k, op{kind: "append", ins: ins})
+				}
+			}
+		case *ssa.Store:
+			ia, ok := x.Addr.(*ssa.IndexAddr)
+			if !ok {
+				return
+			}
+			k := kindOf(ia.X.Type())
+			if k == "" {
+				return
+			}
+			if ld, ok := x.Val.(*ssa.UnOp); ok && ld.Op == token.MUL {
+				if sa, ok := ld.X.(*ssa.IndexAddr); ok && kindOf(sa.X.Type()) == k {
+					add(b, k, op{kind: "move", a: ia.Index, b: sa.Index, ins: ins})
+				}
+			}
+		case *ssa.UnOp:
+			if x.Op == token.MUL {
+				if ia, ok := x.X.(*ssa.IndexAddr); ok && kindOf(ia.X.Type()) == "flags" {
+					// the load that feeds a move of the flags themselves is not a use of a flag
+					isMoveSrc := false
+					if x.Referrers() != nil {
+						for _, u := range *x.Referrers() {
+							if st, ok := u.(*ssa.Store); ok && st.Val == x {
+								isMoveSrc = true
+							}
+						}
+					}
+					if !isMoveSrc {
+						flagReads[b] = true
+						nFlags++
+					}
+				}
+			}
+		}
+	})
+	if nFlags == 0 {
+		r.check("Y7", "Delaunay2d|flags-follow-their-triangles", fn.Pos(), true, "no separate flag slice is read: nothing to keep in step")
+		return
+	}
+	n := 0
+	for _, b := range fn.Blocks {
+		for _, o := range ops[b]["tris"] {
+			// can a flag still be read after this operation?
+			live := false
+			for rb := range reachableFrom(b) {
+				if flagReads[rb] {
+					live = true
+				}
+			}
+			if !live {
+				continue
+			}
+			n++
+			twin := false
+			for _, f := range ops[b]["flags"] {
+				if f.kind == o.kind && sameSSA(f.a, o.a) && sameSSA(f.b, o.b) {
+					twin = true
+				}
+			}
+			r.check("Y7", fmt.Sprintf("Delaunay2d|%s#%d|flags-follow-their-triangles", o.kind, n), o.ins.Pos(), twin, "the triangle list is changed here ("+o.kind+") while completion flags are still consulted: the flag slice needs the same operation with the same operands in the same block")
+		}
+	}
+	r.floor("Y7", 3)
+}
+
+// ---------------------------------------------------------------- Y8: the reference's hull test
+
+// checkHullTest: the brute-force reference keeps a triangle iff no other lifted point lies below
+// its plane: the signed distance (a dot product with the plane normal) is compared with zero. An
+// absolute threshold is wrong for small point sets (everything within it counts as "on the plane").
+func checkHullTest(ctx *Ctx, r *Report) {
+	fn := ctx.ssaFunc("render", "Delaunay2dSlow")
+	if fn == nil {
+		r.undecided("Y8", "Delaunay2dSlow", 0, "not found")
+		return
+	}
+	n := 0
+	seen := map[*ssa.Function]bool{}
+	var walk func(f *ssa.Function, depth int)
+	walk = func(f *ssa.Function, depth int) {
+		if seen[f] || len(f.Blocks) == 0 || depth > 2 {
+			return
+		}
+		seen[f] = true
+		allInstrs(f, func(b *ssa.BasicBlock, ins ssa.Instruction) {
+			if ci, ok := ins.(ssa.CallInstruction); ok {
+				if g := ci.Common().StaticCallee(); g != nil && inModule(g) && g.Pkg == fn.Pkg {
+					walk(g, depth+1)
+				}
+			}
+			bo, ok := ins.(*ssa.BinOp)
+			if !ok {
+				return
+			}
+			switch bo.Op {
+			case token.GTR, token.GEQ, token.LSS, token.LEQ:
+			default:
+				return
+			}
+			isDot := func(v ssa.Value) bool {
+				c, ok := v.(*ssa.Call)
+				if !ok {
+					return false
+				}
+				g := c.Call.StaticCallee()
+				return g != nil && g.Name() == "Dot"
+			}
+			var other ssa.Value
+			switch {
+			case isDot(bo.X):
+				other = bo.Y
+			case isDot(bo.Y):
+				other = bo.X
+			default:
+				return
+			}
+			n++
+			zero := false
+			if c, ok := other.(*ssa.Const); ok && c.Value != nil {
+				if q, ok := constantToRat(c.Value); ok && q.Sign() == 0 {
+					zero = true
+				}
+			}
+			r.check("Y8", fmt.Sprintf("%s|plane-side-test#%d|threshold-is-zero", shortFn(f), n), bo.Pos(), zero, "which side of the triangle's plane a lifted point lies on is the sign of the dot product: compared with 0, not with a length-scale dependent constant")
+		})
+	}
+	walk(fn, 0)
+	r.floor("Y8", 1)
 }
